@@ -1,5 +1,7 @@
 import CoercionModel.Model.Store
 import CoercionModel.Generated.F3
+import CoercionModel.Model.SkeletonsCosmos
+import CoercionModel.Generated.F11
 set_option linter.unusedSimpArgs false
 /-
   C13 — Storage round trip: Read returns exactly what was last written.
@@ -116,5 +118,11 @@ theorem facts_tables : F3.tables.map (·.1) = ["plans", "blocks", "checks", "seq
 def p1 : SPlan := ⟨1, [⟨1, 10, 0, true⟩, ⟨2, 20, 0, true⟩, ⟨3, 30, 0, true⟩]⟩
 example : (readPlan (applyAll (create [] p1).1 [(2, 5), (3, 7), (2, 9)]) 1).map (fun p => p.objs.map (·.state)) = some [0, 9, 7] := by decide
 example : readPlan (delete (create [] p1).1 1) 1 = none := by decide
+
+set_option maxRecDepth 100000 in
+/-- CosmosDB backend: the functions that implement this property there still have the shape that was read
+    against the model (skeletons regenerated from /repo on every run, Model/SkeletonsCosmos). A static tie
+    only: the repository's fake Cosmos client cannot judge this part dynamically. -/
+theorem facts_cosmos_skeleton : Generated.F11.roundtrip = SkeletonsCosmos.roundtrip := by decide +kernel
 
 end Coercion.C13
